@@ -45,6 +45,8 @@ def run(ctx):
     rule_derived(ctx, ci)
     rule_slots(ctx, ci)
     rule_gate(ctx, ci)
+    rule_histories(ctx, ci)
+    ctx.floor("R-C13-7", 18)
     ctx.floor("R-C13-1", 2)
     ctx.floor("R-C13-2", 5)
     ctx.floor("R-C13-3", 4)
@@ -55,10 +57,13 @@ def run(ctx):
 
 def _place_paths(ctx, ci, notes_factory, summaries=None):
     fi = ctx.repo.find_method(ci, "place_notes")
-    cb, ln, d = RatFun.var("beat"), RatFun.var("length"), RatFun.var("value")
+    # a bar holding one entry of value v0 (so its current beat is 1/v0), of any length, and a new value
+    v0, ln, d = RatFun.var("v0"), RatFun.var("length"), RatFun.var("value")
+    one = RatFun.of(1)
+    cb = RatFun(one.num * v0.den, one.den * v0.num)
 
     def mk():
-        old = [[Opaque("b0"), Opaque("v0"), None]]
+        old = [[RatFun.of(0), v0, None]]
         return [bar_obj(ci, bar=old, current_beat=cb, length=ln, meter=(4, 4), key=Opaque("key")), notes_factory(), d]
 
     def mk_interp(ch):
@@ -92,8 +97,8 @@ def rule_place(ctx, ci, R="R-C13-1"):
                 bad = "an accepted placement does not append exactly one [beat, value, content] entry (%d -> %d entries)" % (len(before_list), len(lst))
                 break
             e = new[0]
-            if e[0] is not cb or e[1] is not d or e[2] is not nc:
-                bad = "the appended entry is %r, expected [beat before the placement, value, content]" % (e,)
+            if RatFun.of(e[0]) is None or not RatFun.of(e[0]).same(cb) or e[1] is not d or e[2] is not nc:
+                bad = "the appended entry is %r, expected [total length of the entries before it, value, content]" % (e,)
                 break
             nb = RatFun.of(bar.attrs.get("current_beat"))
             if nb is None or not nb.same(RatFun(cb.num * d.num + d.den * cb.den, cb.den * d.num)):
@@ -324,6 +329,8 @@ def rule_gate(ctx, ci, R="R-C13-6"):
         if const is None:
             ok, why = False, "the accepting comparison is not 'beat + 1/value <= length (+ tolerance)': it differs from it by %r" % (tol,)
             break
+        if const == 0 and op == "LtE":
+            continue  # exact arithmetic: total <= length
         if not (TOL_MIN <= const <= TOL_MAX) or op not in ("LtE", "Lt"):
             ok, why = False, ("the gate compares float running sums with tolerance %s: accumulated rounding error (about 1e-13 per bar) "
                               "makes it refuse placements whose exact total equals the bar length (e.g. the 20th quintuplet-sixteenth in 4/4); "
@@ -340,3 +347,171 @@ def rule_gate(ctx, ci, R="R-C13-6"):
         ctx.check(ok_, R, "gate.unbounded%s" % label, fi.where(), "Bar.place_notes in meter %s (length 0)" % label,
                   "a quarter note placed in an empty bar of meter %s gives %s: %s" % (label, [(p_.kind, p_.value) for p_ in ps],
                                                                                    "the unbounded meter must always accept" if want else "a bar of length zero has no room"))
+
+
+# ------------------------------------------------------------------------------ R-C13-7
+# note values of the documented vocabulary as the floats / ints mingus.core.value produces, with their exact lengths
+VOCAB = {
+    "quarter": (4, Fraction(1, 4)), "half": (2, Fraction(1, 2)), "eighth": (8, Fraction(1, 8)), "sixteenth": (16, Fraction(1, 16)), "whole": (1, Fraction(1)),
+    "dotted quarter": (4 / 1.5, Fraction(3, 8)), "dotted eighth": (8 / 1.5, Fraction(3, 16)), "double-dotted half": (2 / 1.75, Fraction(7, 8)),
+    "triplet eighth": (12.0, Fraction(1, 12)), "triplet quarter": (6.0, Fraction(1, 6)), "triplet sixteenth": (24.0, Fraction(1, 24)),
+    "quintuplet sixteenth": (20.0, Fraction(1, 20)), "quintuplet eighth": (10.0, Fraction(1, 10)),
+    "septuplet quarter": (7.0, Fraction(1, 7)), "septuplet eighth": (14.0, Fraction(1, 14)),
+}
+
+
+def rule_histories(ctx, ci):
+    """Placement histories run on the real Bar / NoteContainer / Note code with concrete values and compared with an exact
+    (Fraction) model of the statement: acceptance is the rational test, every start beat is the (float nearest to the)
+    exact sum of the lengths before it, the current beat is the exact total, current beat + space left is the bar
+    length, a refusal changes nothing, an entry can be found again at its exact beat, and index assignment takes what
+    placement takes and touches one entry only."""
+    R = "R-C13-7"
+    repo = ctx.repo
+    nci, noteci = repo.mod(NC).cls("NoteContainer"), repo.mod("mingus.containers.note").cls("Note")
+    fplace = repo.find_method(ci, "place_notes")
+    from ..engine import notesdom as nd
+
+    def new(it, c, *args):
+        return it.call(AClass(c), list(args), {}, None)
+
+    def pitches(cont):
+        if cont is None:
+            return None
+        return tuple(sorted(12 * n.attrs["octave"] + nd.pitch_of_concrete(n.attrs["name"]) for n in cont.attrs["notes"]))
+
+    def snapshot(b):
+        return ([(e[0], e[1], id(e[2])) for e in b.attrs["bar"]], b.attrs.get("current_beat", "class default"), b.attrs.get("length", "class default"))
+
+    def run1(label, fn):
+        try:
+            ps = explore(lambda ch: Interp(repo, ch, max_depth=60, max_iter=5000), fn)
+        except CannotDecide as e:
+            raise AnalysisError("bar history %r: %s" % (label, e))
+        except (IndexError, KeyError) as e:
+            # the history itself reads entries back: one that is missing is a placement that was wrongly refused
+            return None, "the history cannot be completed (%s: %s): an entry that should have been placed is not there" % (type(e).__name__, e)
+        if len(ps) != 1 or ps[0].kind != "return":
+            return None, "outcome %s" % [(p.kind, short(repr(p.value), 80)) for p in ps][:2]
+        return ps[0].value, None
+
+    # (a) fills: n equal values that fill the bar exactly, then a half / one more
+    fills = [
+        ("six triplet eighths then a half", (4, 4), ["triplet eighth"] * 6 + ["half"]),
+        ("six triplet quarters fill 4/4", (4, 4), ["triplet quarter"] * 6),
+        ("twenty quintuplet sixteenths fill 4/4", (4, 4), ["quintuplet sixteenth"] * 20),
+        ("ten quintuplet eighths fill 4/4", (4, 4), ["quintuplet eighth"] * 10),
+        ("seven septuplet quarters fill 4/4", (4, 4), ["septuplet quarter"] * 7),
+        ("three quintuplet sixteenths then a quarter", (4, 4), ["quintuplet sixteenth"] * 3 + ["quarter"]),
+        ("triplet sixteenths fill 12/8", (12, 8), ["triplet sixteenth"] * 36),
+        ("dotted values in 6/8", (6, 8), ["dotted quarter", "dotted eighth", "dotted eighth"]),
+        ("mixed tuplets in 3/4", (3, 4), ["triplet eighth"] * 3 + ["quintuplet sixteenth"] * 5 + ["septuplet eighth"] * 3 + ["eighth"]),
+        ("plain values in 2/2", (2, 2), ["quarter", "eighth", "eighth", "half"]),
+    ]
+    for label, meter, names in fills:
+        def go(it, meter=meter, names=names):
+            b = new(it, ci, "C", meter)
+            trace = []
+            for nm in names + ["sixteenth"]:
+                before = snapshot(b)
+                r = it.call_method(b, "place_notes", ["C", VOCAB[nm][0]], {}, None)
+                trace.append((nm, r, before, snapshot(b)))
+            space = it.call_method(b, "space_left", [], {}, None)
+            full = it.call_method(b, "is_full", [], {}, None)
+            return b, trace, space, full
+        v, err = run1(label, go)
+        ok, why = err is None, err
+        if ok:
+            b, trace, space, full = v
+            length = Fraction(meter[0], meter[1])
+            total, n_acc = Fraction(0), 0
+            for nm, r, before, after in trace:
+                ln = VOCAB[nm][1]
+                want_acc = total + ln <= length
+                if r is not want_acc:
+                    ok, why = False, "placing a %s after a total of %s in %d/%d is %s, exact arithmetic says %s" % (nm, total, meter[0], meter[1], "accepted" if r else "refused", "accept" if want_acc else "refuse")
+                    break
+                if not want_acc:
+                    if before != after:
+                        ok, why = False, "a refused %s changed the bar" % nm
+                        break
+                    continue
+                entries = after[0]
+                if len(entries) != n_acc + 1 or entries[:n_acc] != before[0]:
+                    ok, why = False, "an accepted %s does not append exactly one entry" % nm
+                    break
+                if entries[-1][0] != float(total):
+                    ok, why = False, "entry %d (a %s) starts at beat %r; the lengths before it add up to %s = %r" % (n_acc, nm, entries[-1][0], total, float(total))
+                    break
+                total += ln
+                n_acc += 1
+                if after[1] != float(total):
+                    ok, why = False, "after %d entries the current beat is %r; the lengths add up to %s = %r" % (n_acc, after[1], total, float(total))
+                    break
+            if ok and after[1] + space != float(length):
+                ok, why = False, "current beat %r + space left %r is not the bar length %r" % (after[1], space, float(length))
+            if ok and space < 0:
+                ok, why = False, "space left is negative (%r)" % space
+            if ok and full is not (n_acc > 0 and abs(length - total) <= Fraction(1, 1000)):
+                ok, why = False, "is_full() is %s with %s of %s filled" % (full, total, length)
+        ctx.check(ok, R, "fill[%s]" % label, fplace.where(), "Bar(%d/%d): %s, then one sixteenth more" % (meter[0], meter[1], label), why)
+
+    # (b) an entry is found again at its exact beat; remove-last then place again restores the state
+    def go_at(it):
+        b = new(it, ci, "C", (4, 4))
+        for _ in range(6):
+            it.call_method(b, "place_notes", ["C", 12.0], {}, None)
+        it.call_method(b, "place_notes", ["E", 2], {}, None)
+        it.call_method(b, "place_notes_at", ["G", 0.5], {}, None)
+        found = pitches(b.attrs["bar"][6][2])
+        s1 = snapshot(b)
+        it.call_method(b, "remove_last_entry", [], {}, None)
+        mid = (len(b.attrs["bar"]), b.attrs["current_beat"])
+        it.call_method(b, "place_notes", ["E", 2], {}, None)
+        s2 = snapshot(b)
+        return found, mid, [(x[0], x[1]) for x in s1[0]], s1[1], [(x[0], x[1]) for x in s2[0]], s2[1]
+    v, err = run1("found at its beat", go_at)
+    ok, why = err is None, err
+    if ok:
+        found, mid, e1, cb1, e2, cb2 = v
+        if found != (52, 55):
+            ok, why = False, "place_notes_at(<G>, 0.5) after six triplet eighths and a half note leaves the half-note entry as %s: it starts at beat 1/2" % (found,)
+        elif mid != (6, 0.5):
+            ok, why = False, "removing the last entry leaves (%d entries, beat %r), expected (6, 0.5)" % mid
+        elif (e1, cb1) != (e2, cb2):
+            ok, why = False, "remove-last then the same placement does not restore beats %s / %r (now %s / %r)" % (e1, cb1, e2, cb2)
+    ctx.check(ok, R, "found-at-beat", repo.find_method(ci, "place_notes_at").where(), "six triplet eighths, a half note, place_notes_at(<G>, 0.5), remove-last, place again", why)
+
+    # (c) what placement takes, index assignment takes, and it touches that entry only
+    forms = [("name", lambda it: "D", (50,)), ("Note", lambda it: new(it, noteci, "D", 5), (62,)), ("list of names", lambda it: ["D", "F"], (50, 53)),
+             ("list of [name, octave]", lambda it: [["C", 5], ["E", 5]], (60, 64)), ("list of Notes", lambda it: [new(it, noteci, "C", 3), new(it, noteci, "G", 3)], (36, 43)),
+             ("NoteContainer", lambda it: new(it, nci, ["A", "C"]), (57, 60)), ("empty list", lambda it: [], ())]
+    for label, mk, want in forms:
+        def go(it, mk=mk):
+            b = new(it, ci, "C", (4, 4))
+            for nm in ("C", "E", "G"):
+                it.call_method(b, "place_notes", [nm, 4], {}, None)
+            placed = it.call_method(b, "place_notes", [mk(it), 4], {}, None)
+            via_place = pitches(b.attrs["bar"][3][2])
+            before = snapshot(b)
+            others = [pitches(e[2]) for e in b.attrs["bar"]]
+            try:
+                it.call_method(b, "__setitem__", [1, mk(it)], {}, None)
+                raised = None
+            except RaiseEx as r:
+                raised = r.exc
+            after = snapshot(b)
+            return placed, via_place, raised, [(x[0], x[1]) for x in before[0]], [(x[0], x[1]) for x in after[0]], before[1:], after[1:], others, [pitches(e[2]) for e in b.attrs["bar"]]
+        v, err = run1("forms " + label, go)
+        ok, why = err is None, err
+        if ok:
+            placed, via_place, raised, be, af, bm, am, others, now = v
+            if placed is not True or via_place != want:
+                ok, why = False, "place_notes(<%s>) gives %s and stores pitches %s, expected %s" % (label, placed, via_place, want)
+            elif raised is not None:
+                ok, why = False, "bar[1] = <%s> raises %s although place_notes takes the same form" % (label, raised)
+            elif now[1] != want:
+                ok, why = False, "bar[1] = <%s> stores pitches %s, place_notes stores %s" % (label, now[1], want)
+            elif be != af or bm != am or now[:1] + now[2:] != others[:1] + others[2:]:
+                ok, why = False, "bar[1] = <%s> changes more than the content of entry 1" % label
+        ctx.check(ok, R, "forms[%s]" % label, repo.find_method(ci, "__setitem__").where(), "place_notes(<%s>, 4) and bar[1] = <%s>" % (label, label), why)
